@@ -62,7 +62,7 @@ def plan_seeds(n, thorough):
 
 def run(ctx):
     rng = ctx.rng
-    n = ctx.n(360, 3600)
+    n = ctx.n(360, 3000)
     histories = [G.history_c09(rng) for _ in range(n)]
     # regression corpus first: the three defects this property exhibited on the pinned tree
     histories = CORPUS + histories
